@@ -681,6 +681,10 @@ pub fn string_split(
     Ok(Guarded::with_guard(JsValue::Object(arr), guard))
 }
 
+/// Longest string a built-in will build (the limit other engines use as well); beyond it
+/// `RangeError: Invalid string length` is thrown instead of exhausting memory.
+const MAX_STRING_LENGTH: f64 = 536_870_888.0;
+
 pub fn string_repeat(
     interp: &mut Interpreter,
     this: JsValue,
@@ -694,7 +698,6 @@ pub fn string_repeat(
         return Err(JsError::range_error("Invalid count value"));
     }
     // Refuse results that cannot be represented (same limit class as other engines)
-    const MAX_STRING_LENGTH: f64 = 536_870_888.0;
     if count * (s.len() as f64) > MAX_STRING_LENGTH {
         return Err(JsError::range_error("Invalid string length"));
     }
@@ -937,16 +940,22 @@ pub fn string_pad_start(
     args: &[JsValue],
 ) -> Result<Guarded, JsError> {
     let s = interp.to_js_string(&this);
-    let target_length = args.first().map(|v| v.to_number() as usize).unwrap_or(0);
+    let target_length = args.first().map(|v| v.to_number()).unwrap_or(0.0);
     let pad_string = match args.get(1) {
         None | Some(JsValue::Undefined) => interp.intern(" "),
         Some(v) => interp.to_js_string(v),
     };
 
     let current_len = s.as_str().chars().count();
-    if current_len >= target_length || pad_string.is_empty() {
+    // ToLength(maxLength): NaN and negatives are 0, the rest saturates
+    let target_length = if target_length.is_nan() { 0.0 } else { target_length.trunc() };
+    if current_len as f64 >= target_length || pad_string.is_empty() {
         return Ok(Guarded::unguarded(JsValue::String(s)));
     }
+    if target_length > MAX_STRING_LENGTH {
+        return Err(JsError::range_error("Invalid string length"));
+    }
+    let target_length = target_length as usize;
 
     let pad_len = target_length - current_len;
     let mut padding = String::new();
@@ -966,16 +975,22 @@ pub fn string_pad_end(
     args: &[JsValue],
 ) -> Result<Guarded, JsError> {
     let s = interp.to_js_string(&this);
-    let target_length = args.first().map(|v| v.to_number() as usize).unwrap_or(0);
+    let target_length = args.first().map(|v| v.to_number()).unwrap_or(0.0);
     let pad_string = match args.get(1) {
         None | Some(JsValue::Undefined) => interp.intern(" "),
         Some(v) => interp.to_js_string(v),
     };
 
     let current_len = s.as_str().chars().count();
-    if current_len >= target_length || pad_string.is_empty() {
+    // ToLength(maxLength): NaN and negatives are 0, the rest saturates
+    let target_length = if target_length.is_nan() { 0.0 } else { target_length.trunc() };
+    if current_len as f64 >= target_length || pad_string.is_empty() {
         return Ok(Guarded::unguarded(JsValue::String(s)));
     }
+    if target_length > MAX_STRING_LENGTH {
+        return Err(JsError::range_error("Invalid string length"));
+    }
+    let target_length = target_length as usize;
 
     let pad_len = target_length - current_len;
     let mut padding = String::new();
